@@ -67,6 +67,7 @@ def configs(tier):
         add("a-B1-c%d" % ch, B=1, growers=[1], chunks=ch)
     add("a-B1-cropgrow", B=1, growers=[1], entry="cropgrow")
     add("a-B1-runner", B=1, growers=[1], kind="runner")
+    add("a-B1-sampler", B=1, growers=[1], kind="sampler")
     add("b-B2", B=2, growers=[1, 2])
     add("b-B2-rev", B=2, growers=[2, 1], chunks=1)
     add("c-B1-twice", B=1, growers=[1, 1])
@@ -87,6 +88,7 @@ def configs(tier):
         add("b-B2-c3", B=2, growers=[1, 2], chunks=3)
         add("b-B2-cropgrow", B=2, growers=[1, 2], entry="cropgrow")
         add("b-B2-runner", B=2, growers=[1, 2], kind="runner")
+        add("b-B2-sampler", B=2, growers=[1, 2], kind="sampler", chunks=1)
         add("c-B1-twice-c3", B=1, growers=[1, 1], chunks=3)
         add("c-B2-twice-c2", B=2, growers=[1, 1, 2], chunks=2)
         add("c-B3-twice-p3", B=3, growers=[1, 1, 2, 3], preempt=3, chunks=1)
@@ -112,9 +114,20 @@ class Setup:
         if cfg["kind"] == "runner":
             self.runner = xyz.Runner(self.f, var_names="out")
             crop = self.runner.Crop(name=NAME, parent_dir=d, num_batches=B)
+        elif cfg["kind"] == "sampler":
+            import numpy as np
+
+            self.runner = xyz.Runner(self.f, var_names="out")
+            smp = xyz.Sampler(self.runner, os.path.join(d, "table.pkl"),
+                              default_combos=dict(self.combos))
+            crop = smp.Crop(name=NAME, parent_dir=d, num_batches=B)
         else:
             crop = xyz.Crop(fn=self.f, name=NAME, parent_dir=d, num_batches=B)
-        crop.sow_combos(self.combos, verbosity=0)
+        if cfg["kind"] == "sampler":
+            np.random.seed(11)
+            crop.sow_samples(2 * B, verbosity=0)
+        else:
+            crop.sow_combos(self.combos, verbosity=0)
         self.pre = fsseam.snapshot(d)
         self.expect = {a: xfn.expected("num", {"a": a})
                        for a in self.combos["a"]}
@@ -253,6 +266,10 @@ class Setup:
 
     def reaped_ok(self, res):
         try:
+            if self.cfg["kind"] == "sampler":
+                rows = cmp.df_rows(res)
+                return len(rows) == 2 * self.cfg["B"] and all(
+                    r["out"] == self.expect[r["a"]] for r in rows)
             if self.cfg["kind"] == "runner":
                 got = cmp.ds_to_dict(res)
                 want = {("out", (("a", a),)): v for a, v in self.expect.items()}
